@@ -5,13 +5,19 @@ and on the model, the proof audit, evidence and replay files."""
 import fcntl, hashlib, json, os, re, resource, shutil, subprocess, sys, time
 
 ROOT = os.path.dirname(os.path.dirname(os.path.abspath(__file__)))
-BUILD = os.path.join(ROOT, 'build')
+# The registered checks always run with the defaults (/repo, /verif/build, /verif/evidence).  The three
+# overrides exist only for tools/par_mutants.py, which evaluates seeded changes in scratch worktrees in
+# parallel: VERIF_REPO (the tree the harness is built against), VERIF_BUILD (cargo target dirs, driver,
+# scratch files), VERIF_OUT (where evidence/ and replay/ are written).
+REPO = os.environ.get('VERIF_REPO', '/repo')
+BUILD = os.environ.get('VERIF_BUILD', os.path.join(ROOT, 'build'))
+OUT = os.environ.get('VERIF_OUT', ROOT)
 COQ = os.path.join(ROOT, 'coq')
-HARNESS = os.path.join(ROOT, 'harness')
+HARNESS_SRC = os.path.join(ROOT, 'harness')
+HARNESS = HARNESS_SRC if REPO == '/repo' else os.path.join(BUILD, 'harness')
 TARGET = os.path.join(BUILD, 'target')
 DRIVER = os.path.join(BUILD, 'driver', 'fcmodel')
-REPO = '/repo'
-ENV = dict(os.environ, CARGO_NET_OFFLINE='true', CARGO_TARGET_DIR=TARGET)
+ENV = dict(os.environ, CARGO_NET_OFFLINE='true')
 PROFILES = {'checked': ('dev', 'debug'), 'wrapping': ('wrapping', 'wrapping')}
 
 ALLOWED_AXIOMS = {
@@ -66,23 +72,42 @@ def build_driver():
         rc, out = sh(['ocamlfind', 'ocamlopt', '-w', '-a', '-o', 'fcmodel', 'model.ml', 'main.ml'], cwd=d)
         return rc == 0, out
 
+def _stage_harness():
+    """scratch-worktree mode only: a copy of the harness crate whose path dependency points at VERIF_REPO"""
+    if HARNESS == HARNESS_SRC: return
+    os.makedirs(HARNESS, exist_ok=True)
+    for dp, dn, fs in os.walk(HARNESS_SRC):
+        dn[:] = [d for d in dn if d != 'target']
+        rel = os.path.relpath(dp, HARNESS_SRC)
+        os.makedirs(os.path.join(HARNESS, rel), exist_ok=True)
+        for f in fs:
+            src = os.path.join(dp, f); dst = os.path.join(HARNESS, rel, f)
+            txt = open(src, 'rb').read()
+            if f == 'Cargo.toml': txt = txt.replace(b'"/repo"', ('"%s"' % REPO).encode())
+            if not os.path.exists(dst) or open(dst, 'rb').read() != txt:
+                open(dst, 'wb').write(txt)
+
 def build_harness():
-    """rebuild the harness against /repo's current working tree in both profiles"""
+    """rebuild the harness against the current working tree of /repo, both profiles in parallel (one cargo
+    target directory per profile, so the two builds do not wait for each other's lock)"""
     with Lock('cargo'):
+        _stage_harness()
         lock = os.path.join(HARNESS, 'Cargo.lock')
         if not os.path.exists(lock):
             shutil.copy(os.path.join(REPO, 'Cargo.lock'), lock)
-        logs = []
+        procs = []
         for prof, (pname, _) in PROFILES.items():
-            cmd = ['cargo', 'build', '--offline', '-q'] + ([] if pname == 'dev' else ['--profile', pname])
-            rc, out = sh(cmd, cwd=HARNESS, timeout=1800)
-            logs.append(out)
-            if rc != 0:
-                return False, '\n'.join(logs)
-        return True, '\n'.join(logs)
+            cmd = ['timeout', '1800', 'cargo', 'build', '--offline', '-q'] + ([] if pname == 'dev' else ['--profile', pname])
+            env = dict(ENV, CARGO_TARGET_DIR=os.path.join(TARGET, prof))
+            procs.append(subprocess.Popen(cmd, cwd=HARNESS, env=env, stdout=subprocess.PIPE, stderr=subprocess.STDOUT, text=True))
+        logs = []; ok = True
+        for p in procs:
+            out, _ = p.communicate()
+            logs.append(out); ok = ok and p.returncode == 0
+        return ok, '\n'.join(logs)
 
 def harness_bin(prof):
-    return os.path.join(TARGET, PROFILES[prof][1], 'fcharness')
+    return os.path.join(TARGET, prof, PROFILES[prof][1], 'fcharness')
 
 # ------------------------------------------------------------------------------- running
 _workdir = None
@@ -335,14 +360,14 @@ TRUSTED_BASE = [
 
 # ------------------------------------------------------------------------------- evidence
 def write_evidence(prop, tier, seed, coverage, wall, violations, assumptions=None):
-    os.makedirs(os.path.join(ROOT, 'evidence'), exist_ok=True)
+    os.makedirs(os.path.join(OUT, 'evidence'), exist_ok=True)
     ev = {'property_id': prop, 'tier': tier, 'seed': seed, 'level': 'proof', 'coverage': coverage,
           'assumptions': assumptions or [], 'wall_s': round(wall, 2), 'violations': violations}
-    with open(os.path.join(ROOT, 'evidence', f'{prop}.json'), 'w') as f:
+    with open(os.path.join(OUT, 'evidence', f'{prop}.json'), 'w') as f:
         json.dump(ev, f, indent=1)
 
 def write_replay(prop, payload):
-    d = os.path.join(ROOT, 'replay'); os.makedirs(d, exist_ok=True)
+    d = os.path.join(OUT, 'replay'); os.makedirs(d, exist_ok=True)
     h = hashlib.sha1(json.dumps(payload, sort_keys=True).encode()).hexdigest()[:12]
     p = os.path.join(d, f'{prop}-{h}.json')
     with open(p, 'w') as f:
